@@ -263,6 +263,66 @@ def judge_h2(obs):
     return fails
 
 
+def pipelined_scenario(backend, G=2.0):
+    """Shutdown begins while a request is in flight and a second one is pipelined behind it on the same connection: the
+    first is finished (it ends within the grace period), the connection is then closed, the second is never started."""
+    started = []
+
+    async def app(scope, receive, send):
+        if scope["type"] == "lifespan":
+            while True:
+                m = await receive()
+                if m["type"] == "lifespan.startup":
+                    await send({"type": "lifespan.startup.complete"})
+                else:
+                    await send({"type": "lifespan.shutdown.complete"})
+                    return
+        import sniffio
+
+        started.append(scope["path"])
+        if scope["path"] == "/first":
+            if sniffio.current_async_library() == "trio":
+                import trio
+
+                await trio.sleep(0.6)
+            else:
+                import asyncio
+
+                await asyncio.sleep(0.6)
+        body = scope["path"].encode()
+        await send({"type": "http.response.start", "status": 200, "headers": [(b"content-length", b"%d" % len(body))]})
+        await send({"type": "http.response.body", "body": body})
+
+    sv = c14.Served(backend, app, graceful_timeout=G, shutdown_timeout=1.0, keep_alive_timeout=30.0)
+    obs = {"backend": backend, "case": "pipelined-at-shutdown", "G": G, "error": None}
+    first = sv.wait_listening()
+    if first is None:
+        obs["error"] = "never listening: " + repr(sv.result["error"])
+        return obs
+    first.close()
+    s = sv.connect()
+    s.sendall(b"GET /first HTTP/1.1\r\nHost: x\r\n\r\nGET /second HTTP/1.1\r\nHost: x\r\n\r\n")
+    time.sleep(0.2)
+    sv.trigger.set()
+    s.settimeout(G + 3.0)
+    data = b""
+    try:
+        while True:
+            chunk = s.recv(65536)
+            if not chunk:
+                break
+            data += chunk
+    except (socket.timeout, OSError):
+        obs["error"] = "connection not closed"
+    s.close()
+    sv.thread.join(G + 4.0)
+    obs["returned"] = not sv.thread.is_alive()
+    obs["responses"] = data.count(b"HTTP/1.1 200")
+    obs["bodies"] = [b for b in (b"/first", b"/second") if data.endswith(b) or (b + b"HTTP/1.1") in data]
+    obs["started"] = list(started)
+    return obs
+
+
 def max_requests_scenario(backend):
     """The worker's own request limit is a shutdown trigger."""
     ev = []
@@ -317,6 +377,12 @@ def run(ctx):
         o = h2_scenario(backend)
         descs.append({k: (repr(v) if k == "data" else v) for k, v in o.items()})
         oracle_failures.extend(judge_h2(o))
+        o = pipelined_scenario(backend)
+        descs.append(o)
+        if o.get("error") or not o.get("returned"):
+            oracle_failures.append({"signature": "pipelined-at-shutdown:" + str(o.get("error") or "serve-did-not-return"), "obs": o})
+        elif o["responses"] != 1 or o["started"] != ["/first"]:
+            oracle_failures.append({"signature": "request-started-after-shutdown-began", "obs": {k: repr(v) for k, v in o.items()}})
         o = max_requests_scenario(backend)
         descs.append(o)
         if o.get("error") or not o.get("returned"):
